@@ -352,7 +352,12 @@ func extIndex(fr *frame, args []value) value {
 
 func (i *interpreter) randVar(kind string, s sym.Sort) *sym.Term {
 	i.noSpec("rand")
-	t := i.ctx.Var(i.freshName("rnd"), s)
+	// the name encodes the sort: names are reused across paths and must keep their sort
+	pfx := "rndf"
+	if s.K == sym.KBV {
+		pfx = fmt.Sprintf("rndi%d", s.W)
+	}
+	t := i.ctx.Var(i.freshName(pfx), s)
 	i.tape = append(i.tape, tapeVar{kind: kind, term: t, name: t.Name})
 	return t
 }
